@@ -44,6 +44,25 @@ Engine E2 (vf/engines/aio.py): exhaustive enumeration of schedules of the REAL
                                   `_req_queue` / `_req_results` empty when all returned.  Everything seen in such a
                                   schedule is reported as "model-call-raises:<class>".  The property's quantifier
                                   names model latency, not model failure: MODEL_FAILURE_FAMILY switches the family off
+               colliding-model-names  two indexes in one process whose embedding models are DIFFERENT but have names
+                                  that resemble each other: NAME_PAIRS = pairs of (engine, model name) that collide
+                                  under at least one of KEY_DERIVATIONS (last / first path component, directory,
+                                  version or revision suffix dropped, case, surrounding space, separator characters,
+                                  first / last 60 characters, model name alone with two engines, engine and model
+                                  joined by '-' or '/').  One request on each index, same round (either index may
+                                  load its model first) or one after the other, cache off / on.  The fake provider
+                                  derives its vectors from the full (engine, model name); the process-wide table of
+                                  loaded models starts empty in every execution.  Oracle: each index returns the
+                                  vectors of ITS model.  Reported as "colliding-model-names:<how the names
+                                  resemble>:<class>"
+               loop-abandoned     second-event-loop configurations with one more choice ("abandon",), enabled while
+                                  a request of round 1 is under way: the first loop is given up at that moment
+                                  (asyncio.run(asyncio.wait_for(work, timeout)) when the timeout fires; Ctrl-C in a
+                                  synchronous call): everything on it is cancelled, it is wound up and closed.  The
+                                  requests that went with it owe nothing; every request of round 2 (fresh loop, same
+                                  index) must complete with model(text).  `_req_queue` / `_req_results` are not
+                                  demanded empty there.  Reported as "loop-abandoned:<moment>:<class>", class
+                                  "later-request-not-served" for a request that raises or never completes
   binding      during every prefix replay the enabled list at every depth must equal the recorded one; 1-in-N
                schedules (by hash of the trace) are re-run twice from scratch and must give identical
                observations (traces_validated_against_impl); a divergence is a harness error.
@@ -67,10 +86,30 @@ ITEM_TEXTS = ("a", "b", "", "c")     # items of the search index; every requeste
 HOLD = 0.01
 KIND = {"B": "batch", "G": "list", "S": "search"}
 MODELS = ("verif", "verif6")         # embedding_model names; index i of a configuration uses MODELS[i]
+# more engines of the same fake provider (family colliding-model-names): an unrelated one, and two whose names
+# continue the first engine's name with a separator a key derivation may use
+ENGINE_TWO, ENGINE_DASH, ENGINE_SLASH = ENGINE + "_two", ENGINE + "-acme", ENGINE + "/acme"
+ENGINES = (ENGINE, ENGINE_TWO, ENGINE_DASH, ENGINE_SLASH)
+
+
+def mid(engine, name):
+    """identity of the model `name` of engine `engine` (what the fake provider derives its vectors from)"""
+    return name if engine == ENGINE else f"{engine}::{name}"
+
+
+def models_of(cfg):
+    """[(engine, model name)] of the indexes of a configuration"""
+    if cfg.get("models"):
+        return [tuple(m) for m in cfg["models"]]
+    return [(ENGINE, m) for m in MODELS]
+
+
+def mids_of(cfg):
+    return [mid(e, n) for e, n in models_of(cfg)]
 
 
 def vec(text, model="verif"):
-    """the fake embedding model: what model `model` gives for `text`"""
+    """the fake embedding model: what model `model` (a model identity, see mid()) gives for `text`"""
     seed = "C19|" + text if model == "verif" else f"C19|{model}|{text}"
     d = hashlib.sha256(seed.encode("utf-8")).digest()
     return [(b - 127.5) / 127.5 for b in d[:6]]
@@ -110,7 +149,7 @@ def lib():
         engine_name = ENGINE
 
         def __init__(self, embedding_model=None, **_kw):
-            self.model = embedding_model
+            self.model = mid(type(self).engine_name, embedding_model)
 
         async def encode_async(self, documents):
             w = _CUR
@@ -120,6 +159,7 @@ def lib():
                 return [vec(t, m) for t in docs]
             j = len(w.calls)
             w.calls.append(docs)
+            w.callers.add(m)
             fut = w.env.external(("model", j))
             if w.cfg.get("fail") and w.failed is None:
                 # the same call has a second possible answer: it raises (at most one such answer per schedule)
@@ -132,6 +172,9 @@ def lib():
             return [vec(t, self.model) for t in documents]
 
     register_embedding_provider(VerifEmbeddingModel)
+    for e in ENGINES[1:]:
+        register_embedding_provider(type("VerifEmbeddingModel_" + re.sub(r"\W", "_", e), (VerifEmbeddingModel,),
+                                         {"engine_name": e}))
     pre = {}
     for m in MODELS:
         pre[m] = AnnoyIndex(6, "angular")
@@ -144,9 +187,23 @@ def lib():
             for m2 in MODELS:                   # and a vector of the other model is told apart by search
                 if m2 != m and pre[m].get_nns_by_vector(vec(t, m2), 1) == [i]:
                     raise RuntimeError("HARNESS: the two models are not told apart by search")
+    for _label, m1, m2 in NAME_PAIRS:       # the indexes of the models of the family colliding-model-names
+        for e, n in (m1, m2):
+            m = mid(e, n)
+            if m not in pre:
+                pre[m] = AnnoyIndex(6, "angular")
+                for i, t in enumerate(ITEM_TEXTS):
+                    pre[m].add_item(i, vec(t, m))
+                pre[m].build(10)
+                for i, t in enumerate(ITEM_TEXTS):
+                    if pre[m].get_nns_by_vector(vec(t, m), 1) != [i]:
+                        raise RuntimeError("HARNESS: the model vectors do not separate the index items")
+    from nemoguardrails.embeddings import providers
     from vf.seams import GlobalsGuard
     global _GUARD
-    _GUARD = GlobalsGuard([basic, cache])
+    # providers: the process-wide table of loaded embedding models starts empty in every execution (which index
+    # loads its model first is part of the schedule)
+    _GUARD = GlobalsGuard([basic, cache, providers])
     _LIB = {"Index": basic.BasicEmbeddingsIndex, "Item": IndexItem, "Cache": cache.EmbeddingsCache,
             "CacheConfig": EmbeddingsCacheConfig, "prebuilt": pre}
     return _LIB
@@ -154,7 +211,7 @@ def lib():
 
 class World:
     __slots__ = ("env", "cfg", "idx", "indexes", "calls", "auto", "max_queue", "max_results_table", "max_inflight",
-                 "full_wait", "failed", "inflight_at_failure", "full_wait_loops")
+                 "full_wait", "failed", "inflight_at_failure", "full_wait_loops", "callers")
 
     def __init__(self, env, cfg):
         self.env = env
@@ -170,6 +227,7 @@ class World:
         self.failed = None                  # number of the model call that raised (fail configurations)
         self.inflight_at_failure = set()    # requests started and not returned when it raised
         self.full_wait_loops = set()        # numbers of the loops in which a request found the queue full
+        self.callers = set()                # identities of the model objects that were called
 
 
 def _clear_dir(d):
@@ -184,6 +242,8 @@ def maker(cfg, scratch):
     L = lib()
     reqs = norm_reqs(cfg["reqs"])
     n_idx = 1 + max(r[3] for r in reqs)
+    models = models_of(cfg)
+    mids = mids_of(cfg)
     cache = cfg.get("cache")
     items = [L["Item"](text=t, meta={"i": i}) for i, t in enumerate(ITEM_TEXTS)]
 
@@ -194,7 +254,7 @@ def maker(cfg, scratch):
         special = bool(cfg.get("burst") or cfg.get("fail") or cfg.get("loops", 1) > 1)
         if special:
             C19Env.adopt(env, w, [k for k, r in enumerate(reqs) if r[2] == 1],
-                         second_loop=cfg.get("loops", 1) > 1, fail=cfg.get("fail"))
+                         second_loop=cfg.get("loops", 1) > 1, fail=cfg.get("fail"), abandon=cfg.get("abandon"))
             env.monitor = lambda: on_step(env, w)
         _GUARD.restore()    # no library-global container carries anything over from the previous execution
         if cache:
@@ -210,7 +270,8 @@ def maker(cfg, scratch):
         # the knowledge-base search providers of one app are, or the same app before / after a model change)
         for i in range(n_idx):
             w.indexes.append(L["Index"](
-                embedding_model=MODELS[i], embedding_engine=ENGINE, index=None if api else L["prebuilt"][MODELS[i]],
+                embedding_model=models[i][1], embedding_engine=models[i][0],
+                index=None if api else L["prebuilt"][mids[i]],
                 cache_config=cc, use_batching=bool(cfg.get("use_batching", True)),
                 max_batch_size=cfg["mbs"], max_batch_hold=HOLD,
             ))
@@ -282,7 +343,7 @@ def _same(v, ref):
     return _is_vec(v) and list(v) == ref
 
 
-def _whose(v, others, model="verif"):
+def _whose(v, others, model="verif", mids=MODELS):
     """name the text whose model vector v is"""
     if v is None:
         return "none"
@@ -291,26 +352,29 @@ def _whose(v, others, model="verif"):
     for t in ITEM_TEXTS:
         if list(v) == vec(t, model):
             return "vector-of-another-request" if t in others else "vector-of-an-unrequested-text"
-    for m in MODELS:
+    for m in mids:
         if m != model and any(list(v) == vec(t, m) for t in ITEM_TEXTS):
             return "vector-of-another-model"
     return "unknown-vector"
 
 
-def vname(v):
+def vname(v, mids=MODELS):
     """a vector, named when it is the model vector of a known text"""
     if _is_vec(v):
-        for m in MODELS:
+        for m in mids:
             for t in ITEM_TEXTS:
                 if list(v) == vec(t, m):
                     return f"model({t!r})" if m == MODELS[0] else f"{m}({t!r})"
     if isinstance(v, (list, tuple)) and v and all(isinstance(x, (list, tuple)) or x is None for x in v):
-        return "[" + ", ".join(vname(x) for x in v) + "]"
+        return "[" + ", ".join(vname(x, mids) for x in v) + "]"
     return repr(v)
 
 
-def req_name(k, kind, payload, which=0):
-    on = f" on index {which} (embedding_model {MODELS[which]!r})" if which else ""
+def req_name(k, kind, payload, which=0, models=None):
+    if models:
+        on = f" on index {which} (embedding_engine {models[which][0]!r}, embedding_model {models[which][1]!r})"
+    else:
+        on = f" on index {which} (embedding_model {MODELS[which]!r})" if which else ""
     if kind == "B":
         return f"request {k} _batch_get_embeddings({payload!r}){on}"
     if kind == "G":
@@ -345,8 +409,8 @@ def render(kind, res):
         return {"value": repr(v)}
 
 
-def expected(kind, payload, which=0):
-    m = MODELS[which]
+def expected(kind, payload, which=0, mids=MODELS):
+    m = mids[which]
     if kind == "S":
         return {"items": [payload]}
     if kind == "B":
@@ -395,6 +459,10 @@ def judge(cfg, env, w, info):
     started = env.started() if isinstance(env, C19Env) else {lab[1] for lab in info["trace"] if lab[0] == "start"}
     failed = w.failed is not None       # a model call raised in this schedule (fail configurations only)
     loop_of = getattr(env, "loop_of", {})
+    mids = mids_of(cfg)
+    models = models_of(cfg) if cfg.get("models") else None
+    abandoned = getattr(env, "abandoned", False)    # the first event loop was given up with requests under way
+    cut = getattr(env, "cut", ())                   # ... these requests went with it
     all_texts = []
     for kind, payload, _r, _w in reqs:
         all_texts.extend(payload if kind == "G" else [payload])
@@ -404,10 +472,10 @@ def judge(cfg, env, w, info):
     for k, (kind, payload, _rnd, which) in enumerate(reqs):
         marks.append((len(out), k))
         res = env.results.get(k)
-        name = req_name(k, kind, payload, which)
+        name = req_name(k, kind, payload, which, models)
         if loop_of.get(k, 0) >= 1:
             name += " (on the second event loop)"
-        model = MODELS[which]
+        model = mids[which]
         if res is None:
             if k in started and outcome == "stuck":
                 names, fut = env.where_blocked(k)
@@ -439,15 +507,17 @@ def judge(cfg, env, w, info):
                             f"{name} raised {exc_text(e)}"))
             continue
         if res[0] != "ok":
+            if abandoned and k in cut and res[0] == "cancelled":
+                continue        # given up by its caller together with the loop it ran on
             out.append((f"exception:{KIND[kind]}:{res[0]}", f"{name} ended {res[0]}"))
             continue
         v = res[1]
         if kind == "B":
             if not _same(v, vec(payload, model)):
                 others = [t for t in all_texts if t != payload]
-                how = _whose(v, others, model)
+                how = _whose(v, others, model, mids)
                 out.append((f"wrong-vector:batch:{how}",
-                            f"{name} returned {vname(v)}, not {vname(vec(payload, model))}"))
+                            f"{name} returned {vname(v, mids)}, not {vname(vec(payload, model), mids)}"))
         elif kind == "G":
             exp = [vec(t, model) for t in payload]
             if not isinstance(v, (list, tuple)):
@@ -459,9 +529,9 @@ def judge(cfg, env, w, info):
                     how = "permuted"
                 else:
                     i = next(i for i, (x, e) in enumerate(zip(v, exp)) if not _same(x, e))
-                    how = _whose(v[i], [t for t in all_texts if t != payload[i]], model)
+                    how = _whose(v[i], [t for t in all_texts if t != payload[i]], model, mids)
                 out.append((f"wrong-vector:list:{how}",
-                            f"{name} returned {vname(list(v))}, expected {vname(exp)}"))
+                            f"{name} returned {vname(list(v), mids)}, expected {vname(exp, mids)}"))
         else:
             texts = [getattr(i, "text", None) for i in v] if isinstance(v, (list, tuple)) else None
             if texts != [payload]:
@@ -470,12 +540,12 @@ def judge(cfg, env, w, info):
                     # the vector itself is not visible: is the item the one another model's vector would find?
                     found = [ITEM_TEXTS.index(texts[0])]
                     pre = lib()["prebuilt"][model]
-                    if any(pre.get_nns_by_vector(vec(payload, m), 1) == found for m in MODELS if m != model):
+                    if any(pre.get_nns_by_vector(vec(payload, m), 1) == found for m in mids if m != model):
                         how = "vector-of-another-model"
                 out.append((f"wrong-vector:search:{how}",
                             f"{name} found {texts!r}; the query's own embedding finds exactly [{payload!r}]"))
     n_leftover = len(out)
-    if outcome == "done":
+    if outcome == "done" and not abandoned:
         for idx in w.indexes:
             if idx._req_queue:
                 out.append(("leftover:_req_queue",
@@ -485,12 +555,31 @@ def judge(cfg, env, w, info):
                                                      f"results for ids {sorted(idx._req_results)!r}"))
     n_reqs_end = n_leftover
     # one class whatever the kind of request: a vector computed by another embedding model came out of the cache
-    out = [("wrong-vector:vector-of-another-model-from-shared-cache", what) if sig.endswith(":vector-of-another-model")
-           else (sig, what) for sig, what in out]
+    if not cfg.get("pair"):
+        out = [("wrong-vector:vector-of-another-model-from-shared-cache", what)
+               if sig.endswith(":vector-of-another-model") else (sig, what) for sig, what in out]
     # the families with a special environment name what they see after it: everything seen in a schedule in which a
     # model call raised; what a request shows that ran on the second event loop of the execution (and what is left
     # over after that loop)
-    if failed:
+    if cfg.get("pair"):
+        # family colliding-model-names: the class is the pair of names (how they resemble each other) and, for a
+        # vector of the other model, whether the index ended up holding the model object of the other name (only
+        # read to name the class; the verdict is the vector)
+        foreign = any(getattr(getattr(i, "_model", None), "model", mids[n]) != mids[n]
+                      for n, i in enumerate(w.indexes))
+        via = "index-holds-the-model-object-of-the-other-name" if foreign else "own-model-object"
+        out = [(f"colliding-model-names:{cfg['pair']}:" +
+                (f"vector-of-another-model:{via}" if sig.endswith(":vector-of-another-model") else sig),
+                what + (f"  [models {models_of(cfg)!r}]" if i == 0 else "")) for i, (sig, what) in enumerate(out)]
+    elif abandoned:
+        # family loop-abandoned: the class is the moment at which the first loop was given up and what a later
+        # request shows: not served (it raises or waits for ever) or the ordinary wrong-vector classes
+        out = [(f"loop-abandoned:{env.abandon_phase}:" +
+                ("later-request-not-served" if sig.startswith(("exception:", "no-completion:")) else sig),
+                what + f" - after the first event loop was given up {env.abandon_phase.replace('-', ' ')} "
+                       f"(requests {sorted(cut)!r} under way) and wound up the way asyncio.run does it")
+               for sig, what in out]
+    elif failed:
         out = [("model-call-raises:" + sig, what) for sig, what in out]
     elif loop_of:
         owner = {}
@@ -523,7 +612,7 @@ def replay_dict(cfg, env, w, info):
         "config": public_cfg(cfg),
         "schedule": [list(x) for x in info["trace"]],
         "outcome": info["outcome"],
-        "expected": {str(k): expected(kd, p, wh) for k, (kd, p, _r, wh) in enumerate(reqs)},
+        "expected": {str(k): expected(kd, p, wh, mids_of(cfg)) for k, (kd, p, _r, wh) in enumerate(reqs)},
         "observed": {str(k): render(reqs[k][0], env.results.get(k)) for k in range(len(reqs))},
         "model_calls": [list(c) for c in w.calls],
     }
@@ -531,7 +620,7 @@ def replay_dict(cfg, env, w, info):
 
 def public_cfg(cfg):
     return {k: cfg[k] for k in ("reqs", "mbs", "cache", "prewarm", "use_batching", "build", "granularity",
-                                "burst", "loops", "fail") if k in cfg}
+                                "burst", "loops", "fail", "abandon", "pair", "models") if k in cfg}
 
 
 # ------------------------------------------------------------------ one configuration
@@ -560,8 +649,13 @@ def explore(task):
         "schedules_with_later_round_released_after_failure": 0, "requests_served_after_a_model_failure": 0,
         "schedules_with_second_event_loop": 0, "schedules_with_queue_full_wait_on_second_event_loop": 0,
         "requests_completed_on_second_event_loop": 0,
+        "schedules_with_two_resembling_model_names": 0, "schedules_with_both_models_called": 0,
+        "schedules_with_first_loop_abandoned": 0, "schedules_with_loop_abandoned_during_batch_hold_time": 0,
+        "schedules_with_loop_abandoned_during_model_call": 0, "requests_given_up_with_their_loop": 0,
+        "requests_served_after_an_abandoned_loop": 0,
     }
-    family = ("model-call-raises" if cfg.get("fail") else "second-event-loop" if cfg.get("loops", 1) > 1
+    family = ("colliding-model-names" if cfg.get("pair") else "loop-abandoned" if cfg.get("abandon")
+              else "model-call-raises" if cfg.get("fail") else "second-event-loop" if cfg.get("loops", 1) > 1
               else "burst-arrival" if cfg.get("burst") else "plain")
     quiesc = cfg.get("granularity", "quiescence") == "quiescence"
     viol = {}
@@ -603,6 +697,16 @@ def explore(task):
             counts["schedules_with_queue_full_wait_on_second_event_loop"] += 1 in w.full_wait_loops
             counts["requests_completed_on_second_event_loop"] += sum(
                 1 for k, r in env.results.items() if r[0] == "ok" and env.loop_of.get(k, 0) >= 1)
+        if cfg.get("pair"):
+            counts["schedules_with_two_resembling_model_names"] += 1
+            counts["schedules_with_both_models_called"] += len(w.callers) >= 2
+        if getattr(env, "abandoned", False):
+            counts["schedules_with_first_loop_abandoned"] += 1
+            counts["schedules_with_loop_abandoned_during_batch_hold_time"] += env.abandon_phase == "during-batch-hold-time"
+            counts["schedules_with_loop_abandoned_during_model_call"] += env.abandon_phase == "during-model-call"
+            counts["requests_given_up_with_their_loop"] += len(env.cut)
+            counts["requests_served_after_an_abandoned_loop"] += sum(
+                1 for k, r in env.results.items() if r[0] == "ok" and env.loop_of.get(k, 0) >= 1)
         hit = bool(cfg.get("cache")) and info["outcome"] == "done" and got < n_texts
         counts["schedules_with_concurrent_model_calls"] += w.max_inflight >= 2
         counts["schedules_with_queue_full_wait"] += w.full_wait
@@ -643,11 +747,14 @@ def explore(task):
                     cur["replay"] = replay_dict(cfg, env, w, info)
         elif len(samples) < 1 and w.calls and len(trace) >= 5 and info["deviations"] >= 1 and (
                 shared if family in ("plain", "burst-arrival") else w.failed is not None
-                if family == "model-call-raises" else getattr(env, "switched", False)):
+                if family == "model-call-raises" else len(w.callers) >= 2 if family == "colliding-model-names"
+                else getattr(env, "abandoned", False) if family == "loop-abandoned"
+                else getattr(env, "switched", False)):
             samples.append({"family": family, "config": public_cfg(cfg),
                             "schedule": " ".join(label_str(x) for x in trace),
                             "model_calls": [list(c) for c in w.calls], "outcome": info["outcome"],
-                            "results": [("raised the injected failure" if r[0] == "exc" else "equal to model(text)")
+                            "results": [("raised the injected failure" if r[0] == "exc" else
+                                         "given up with its event loop" if r[0] == "cancelled" else "equal to model(text)")
                                         if r is not None else None for r in (env.results.get(k) for k in range(len(reqs)))],
                             "results_equal_model_or_injected_failure": True})
 
@@ -874,6 +981,64 @@ def tasks(tier):
 
 MODEL_FAILURE_FAMILY = True     # configurations in which one call of the embedding model may raise
 SECOND_LOOP_FAMILY = True       # configurations whose second round runs on a fresh event loop (same index objects)
+MODEL_NAMES_FAMILY = True       # two indexes whose (engine, model name) differ but resemble each other
+ENGINE_BOUNDARY_PAIRS = True    # ... including pairs that differ only in where the engine name ends and the model begins
+LOOP_ABANDONED_FAMILY = True    # the first event loop is given up at any moment while requests are under way
+
+# Two different embedding models in one process (core index and knowledge base, two configurations of one server):
+# (label = how the two names resemble each other, (engine, model name) of index 0, ... of index 1).  Every pair
+# collides under at least one of the KEY_DERIVATIONS below - ways in which a process-wide table or a cache name space
+# may shorten, normalise or join the two strings.  The names are different, so the models are different: the fake
+# provider derives its vectors from the full (engine, model name).
+_LONG = "acme/text-embedding-encoder-for-retrieval-multilingual-base-"
+_TAIL = "-text-embedding-encoder-for-retrieval-multilingual-base-model-v2"
+NAME_PAIRS = [
+    ("same-last-path-component", (ENGINE, "acme/enc"), (ENGINE, "globex/enc")),
+    ("same-last-path-component-local-checkpoints", (ENGINE, "/models/v1/enc"), (ENGINE, "/models/v2/enc")),
+    ("short-and-qualified-name", (ENGINE, "enc"), (ENGINE, "acme/enc")),
+    ("same-directory", (ENGINE, "acme/enc"), (ENGINE, "acme/enc-large")),
+    ("one-name-a-prefix-of-the-other", (ENGINE, "enc"), (ENGINE, "enc-large")),
+    ("same-up-to-version-suffix", (ENGINE, "enc-v1"), (ENGINE, "enc-v2")),
+    ("same-up-to-revision", (ENGINE, "acme/enc@r1"), (ENGINE, "acme/enc@r2")),
+    ("same-up-to-letter-case", (ENGINE, "acme/Enc"), (ENGINE, "acme/enc")),
+    ("same-up-to-surrounding-space", (ENGINE, "enc"), (ENGINE, "enc ")),
+    ("same-up-to-separator-characters", (ENGINE, "acme/enc"), (ENGINE, "acme_enc")),
+    ("same-first-60-characters", (ENGINE, _LONG + "a"), (ENGINE, _LONG + "b")),
+    ("same-last-60-characters", (ENGINE, "en" + _TAIL), (ENGINE, "de" + _TAIL)),
+    ("same-model-name-two-engines", (ENGINE, "enc"), (ENGINE_TWO, "enc")),
+    ("engine-model-boundary-dash", (ENGINE, "acme-enc"), (ENGINE_DASH, "enc")),
+    ("engine-model-boundary-slash", (ENGINE, "acme/enc"), (ENGINE_SLASH, "enc")),
+]
+BOUNDARY_LABELS = ("engine-model-boundary-dash", "engine-model-boundary-slash")
+KEY_DERIVATIONS = {
+    "last path component of the model name": lambda e, n: (e, n.rsplit("/", 1)[-1]),
+    "first path component of the model name": lambda e, n: (e, n.split("/", 1)[0]),
+    "directory of the model name": lambda e, n: (e, n.rsplit("/", 1)[0] if "/" in n else n),
+    "model name without a version / revision / size suffix": lambda e, n: (e, re.sub(r"([-@](v?\d+|r\d+|large|base))+$", "", n)),
+    "case-folded model name": lambda e, n: (e, n.lower()),
+    "stripped model name": lambda e, n: (e, n.strip()),
+    "model name with non-alphanumeric characters replaced": lambda e, n: (e, re.sub(r"[^0-9A-Za-z]", "_", n)),
+    "first 60 characters of the model name": lambda e, n: (e, n[:60]),
+    "last 60 characters of the model name": lambda e, n: (e, n[-60:]),
+    "model name alone": lambda e, n: n,
+    "engine and model name joined by '-'": lambda e, n: f"{e}-{n}",
+    "engine and model name joined by '/'": lambda e, n: f"{e}/{n}",
+}
+
+
+def name_pairs():
+    """-> [(label, m1, m2, [derivations under which the two collide])] of the pairs in use"""
+    out = []
+    for label, m1, m2 in NAME_PAIRS:
+        if label in BOUNDARY_LABELS and not ENGINE_BOUNDARY_PAIRS:
+            continue
+        if m1 == m2:
+            raise RuntimeError(f"HARNESS: the two models of pair {label} are the same")
+        under = [d for d, f in KEY_DERIVATIONS.items() if f(*m1) == f(*m2)]
+        if not under:
+            raise RuntimeError(f"HARNESS: the names of pair {label} collide under no key derivation")
+        out.append((label, m1, m2, under))
+    return out
 
 
 def _cfg(reqs, mbs, cache, prewarm, **kw):
@@ -918,6 +1083,39 @@ def family_tasks(tier):
             reqs = [(kd, p, 1) for kd, p in m] + [(kd, p, 2) for kd, p in m]
             out.append(_cfg(reqs, mbs, None, (), loops=2, granularity="iteration", max_choices=800, dev_iter=True,
                             max_dev=40, big=True, time_limit=12 if quick else 60))
+    if MODEL_NAMES_FAMILY:
+        # -- two indexes, two models with resembling names: one request on each, same round (either may load its
+        # model first, either may be served first) or one after the other (the second one finds what the first left)
+        pool_n = [B_A, G_ABA, S_A] if quick else [B_A, B_E, G_ABA, G_EB, S_A]
+        caches_n = [None, ("filesystem", "md5")] if quick else [c for c, pw in CACHES_ALL if not pw]
+        for label, m1, m2, _under in name_pairs():
+            for x in pool_n:
+                for y in pool_n:
+                    for second_round in (False, True):
+                        reqs = [(x[0], x[1], 1, 0), (y[0], y[1], 2 if second_round else 1, 1)]
+                        has_b = any(kd in "BS" for kd, _p, _r, _w in reqs)
+                        for mbs in ((2,) if quick or not has_b else (1, 2)):
+                            for cache in caches_n:
+                                out.append(_cfg(reqs, mbs, cache, (), pair=label, models=[list(m1), list(m2)]))
+    if LOOP_ABANDONED_FAMILY and SECOND_LOOP_FAMILY:
+        # -- the first loop is given up (as asyncio.run does it when its main coroutine times out or is interrupted)
+        # at any moment at which a request of round 1 is under way; round 2 arrives on a fresh loop
+        pool_a = [B_A, B_B, S_A, G_EB] if quick else [B_A, B_B, B_E, S_A, G_ABA, G_EB]
+        pool_a2 = [B_A, B_B, S_A] if quick else [B_A, B_B, B_E, S_A]    # what the next loop asks goes through the batcher
+        for n1 in (1, 2):
+            for m1 in multisets(pool_a, n1):
+                if not any(kd in "BS" for kd, _p in m1):
+                    continue
+                for n2 in (1, 2):
+                    for m2 in multisets(pool_a2, n2):
+                        if quick and n2 == 2 and S_A in m2:
+                            continue
+                        reqs = [(kd, p, 1) for kd, p in m1] + [(kd, p, 2) for kd, p in m2]
+                        for mbs in (1, 2) if quick else (1, 2, 3):
+                            for cache, prewarm in CACHES_TWO:
+                                for burst in ((False, True) if n1 > 1 or n2 > 1 else (False,)):
+                                    out.append(_cfg(reqs, mbs, cache, prewarm, loops=2, abandon=True,
+                                                    **({"burst": True} if burst else {})))
     if MODEL_FAILURE_FAMILY:
         # -- every model call may raise (at most one per schedule); a second round shows that the index still serves
         pool_f = [B_A, B_B, G_EB, S_A] if quick else [B_A, B_B, B_E, G_ABA, G_EB, S_A]
@@ -940,6 +1138,11 @@ def family_tasks(tier):
     return out
 
 
+def small_family(cfg):
+    """a configuration of one of the families with a special environment / special models (cheap, run first)"""
+    return bool(cfg.get("fail") or cfg.get("burst") or cfg.get("loops", 1) > 1 or cfg.get("pair"))
+
+
 def weight(cfg):
     """rough cost of a configuration (big ones are scheduled first)"""
     n = len(cfg["reqs"])
@@ -948,7 +1151,7 @@ def weight(cfg):
         w *= 40
     if any(r[2] == 2 for r in cfg["reqs"]):
         w /= 3
-    if cfg.get("fail") or cfg.get("burst") or cfg.get("loops", 1) > 1:
+    if small_family(cfg):
         w *= 100    # the three small families first (seconds of CPU in total): a time cap never cuts them
     if cfg.get("big"):
         w = 0       # the deviation-bounded configurations run last, each within its own time limit
@@ -991,7 +1194,7 @@ def _run(rep, tier, base, par):
         import random
 
         random.Random(rep.seed).shuffle(ts)      # order of work only
-        ts.sort(key=lambda c: 1 if c.get("big") else 0)
+        ts.sort(key=lambda c: 2 if c.get("big") else 0 if small_family(c) else 1)    # as weight() does
     else:
         ts.sort(key=lambda c: -weight(c))
     by_id = {c["id"]: c for c in ts}
@@ -1047,6 +1250,9 @@ def _run(rep, tier, base, par):
             if i < len(samples_by_family[f]):
                 rep.sample(samples_by_family[f][i])
     rep.set("by_family", by_family)
+    if MODEL_NAMES_FAMILY:
+        rep.set("model_name_pairs", {label: {"index_0": list(m1), "index_1": list(m2), "collide_under": under}
+                                     for label, m1, m2, under in name_pairs()})
     new = 0
     for sig in sorted(by_sig, key=lambda s: (by_sig[s]["size"], s)):
         v = by_sig[sig]
@@ -1100,6 +1306,14 @@ def _run(rep, tier, base, par):
         "never run at the same time (no threads)",
         "a small family of configurations has two indexes with different embedding models that are given the same "
         "cache settings (every other configuration has one index)",
+        "family colliding-model-names: the two models of such a configuration are a pair of (engine, model name) that "
+        "differ but collide under a key derivation (coverage.model_name_pairs lists the pairs and the derivations "
+        "under which each collides); different names are different models - the fake provider derives its vectors "
+        "from the full engine and model name, and is registered under four engine names; one request per index",
+        "family loop-abandoned: the first event loop may be given up at any quiescent point at which a request of "
+        "round 1 is under way (all its tasks cancelled, wound up and closed as asyncio.run does); requests of round 1 "
+        "that had not arrived never do; nothing is demanded of the requests that went with the loop, and the batch "
+        "tables are not demanded empty afterwards; every request of round 2 must complete with model(text)",
         "texts from {'a','b','','c'}; request pool: _batch_get_embeddings(t), _get_embeddings([a,b,a] / ['',b] / []), "
         "search(t, max_results=1) on a 4-item index (prebuilt Annoy index handed to the constructor, or built through "
         "add_items/build which also warms the cache)",
@@ -1122,6 +1336,7 @@ def replay(rp):
     lib()
     cfg = dict(rp["config"])
     cfg["reqs"] = norm_reqs(cfg["reqs"])
+    models = models_of(cfg) if cfg.get("models") else None
     base = scratch_root()
     try:
         make = maker(cfg, os.path.join(base, "c"))
@@ -1130,7 +1345,7 @@ def replay(rp):
         print(f"property C19 | {rp.get('signature')}")
         print(f"config: {public_cfg(cfg)}")
         for k, (kd, p, r, wh) in enumerate(cfg["reqs"]):
-            print(f"  {req_name(k, kd, p, wh)}  (round {r})")
+            print(f"  {req_name(k, kd, p, wh, models)}  (round {r})")
 
         def log(env, w):
             i = seen["n"]
@@ -1152,13 +1367,15 @@ def replay(rp):
             print(f"outcome: {outcome}")
             for k, (kd, p, _r, wh) in enumerate(cfg["reqs"]):
                 obs = render(kd, env.results.get(k))
-                exp = expected(kd, p, wh)
+                exp = expected(kd, p, wh, mids_of(cfg))
                 res = env.results.get(k)
                 if cfg.get("fail") and res is not None and res[0] == "exc" and is_injected(res[1]):
                     note = "   (the failure of the model call reaches the caller: a completion)"
+                elif getattr(env, "abandoned", False) and k in env.cut:
+                    note = "   (given up by its caller together with the first event loop)"
                 else:
                     note = "" if obs == exp else "   <-- differs"
-                print(f"  {req_name(k, kd, p, wh)}\n     expected {exp}\n     observed {obs}{note}")
+                print(f"  {req_name(k, kd, p, wh, models)}\n     expected {exp}\n     observed {obs}{note}")
             for n, e in env.background_failures():
                 print(f"  background task {n} died: {type(e).__name__}: {e}")
             info = {"trace": sched, "outcome": outcome if outcome != "open" else "done", "deviations": 0}
